@@ -21,6 +21,13 @@ def run(spec, pid, tier, seed, replay=None):
         print("ERROR: cannot build /repo with the harness: %s" % e)
         return 2
     # 2. proof side: theorems of this property + driver, audit of axioms
+    # the tables read off /repo's source and the toolchain (decision-table literals, hashed fields, Unicode classes) are
+    # regenerated before every proof build: the models and several theorems import them
+    try:
+        core.regen_tables(core.extract_tables())
+    except Exception as e:
+        print("ERROR: cannot extract the source tables: %s" % e)
+        return 2
     pre = spec.get("pre_lake")
     if pre:
         pre()
